@@ -504,3 +504,140 @@ Proof.
   - rewrite (Rabs_left th) by lra. replace (th / - th) with (-1) by (field; lra). rewrite cos_neg, sin_neg, Hc, Hs, E1, E2.
     c03_simpl. tuple_eq ltac:(ring).
 Qed.
+
+
+(* ---------------- log(exp S) = S on every non-identity branch ---------------- *)
+Lemma log_li_rodrigues (v : V3 R) c s : log_li Rops (rodrigues_cs Rops v c s) = vscale3 Rops s v.
+Proof. destruct v as [[v0 v1] v2]. c03_simpl. tuple_eq ltac:(field). Qed.
+
+Theorem logexp_SO3 K (u : V3 R) th :
+  thr_ok2 K -> normsq3 Rops u = 1 -> 0 < th < PI -> thv Rops (k_unit K) < th ->
+  trlog_so3_branch Rops K (rodrigues_th Rops u th) <> BrEye ->
+  trlog_so3_tw Rops K (rodrigues_th Rops u th) = vscale3 Rops th u.
+Proof.
+  intros HK Hu Hth Hthu Hbr. pose proof (proj1 HK) as HK1.
+  assert (Hs : 0 < sin th) by (apply sin_gt_0; lra).
+  set (Rm := rodrigues_th Rops u th) in *.
+  assert (HR : SO3 Rm) by (apply rodrigues_cs_SO3; [exact Hu | apply cs_unit]).
+  destruct u as [[u0 u1] u2].
+  assert (Hli : log_li Rops Rm = (sin th * u0, sin th * u1, sin th * u2)) by (unfold Rm, rodrigues_th; rewrite log_li_rodrigues; reflexivity).
+  assert (Hst : log_st Rops Rm = sin th).
+  { unfold log_st. rewrite Hli. c03_simpl. replace (_ + _ + _) with (sin th * sin th * (u0*u0 + u1*u1 + u2*u2)) by ring.
+    apply sqrt_sq_scale; [lra|]. c03_simpl. exact Hu. }
+  assert (Hc : log_c Rops Rm = cos th).
+  { unfold Rm, rodrigues_th. cbn [cos_ sin_ Rops]. c03_simpl. generalize (cos th) (sin th). intros c s.
+    transitivity ((3 - 2*(1 - c)*(u0*u0 + u1*u1 + u2*u2) - 1)/(1+1)); [f_equal; ring | rewrite Hu; field]. }
+  assert (Hlt : log_theta Rops Rm = th).
+  { unfold log_theta. rewrite Hst, Hc. cbn [atan2_ Rops]. apply atan2_sin_cos. lra. }
+  clearbody Rm.
+  destruct (explog_SO3 K Rm HK HR Hbr) as (Hexp & Hnorm & _); [rewrite Hlt; exact Hthu|].
+  rewrite Hlt in Hnorm.
+  destruct (trlog_so3_tw Rops K Rm) as [[L0 L1] L2] eqn:HL.
+  (* L = (L/th) * th with L/th a unit vector *)
+  assert (Hsq : L0*L0 + L1*L1 + L2*L2 = th*th).
+  { c03_simpl. rewrite <- Hnorm. symmetry. apply sqrt_sqrt. nra. }
+  assert (Hun : (L0/th)*(L0/th) + (L1/th)*(L1/th) + (L2/th)*(L2/th) = 1).
+  { transitivity ((L0*L0 + L1*L1 + L2*L2)/(th*th)); [field; lra | rewrite Hsq; field; lra]. }
+  replace (L0, L1, L2) with (L0/th*th, L1/th*th, L2/th*th) in Hexp by (repeat apply f_equal2; field; lra).
+  rewrite (trexp_so3_scaled K _ _ _ th HK1 Hun Hthu) in Hexp. injection Hexp as Hexp.
+  assert (E : log_li Rops (rodrigues_th Rops (L0/th, L1/th, L2/th) th) = log_li Rops Rm) by (rewrite Hexp; reflexivity).
+  unfold rodrigues_th in E at 1. rewrite log_li_rodrigues, Hli in E. cbn [sin_ Rops] in E. c03_simpl.
+  injection E as E0 E1 E2.
+  assert (Q : forall a b, sin th * (a/th) = sin th * b -> a = th*b).
+  { intros a b H. apply Rmult_eq_reg_l in H; [|lra]. rewrite <- H. field. lra. }
+  repeat apply f_equal2; apply Q; assumption.
+Qed.
+
+
+(* ---------------- SE(3): exp(log T) = T ---------------- *)
+Lemma vex3_skew3 (x : V3 R) : vex3 Rops (skew3 Rops x) = x.
+Proof. destruct x as [[a b] c]. c03_simpl. tuple_eq ltac:(field). Qed.
+
+(* the matrix form of the SO(3) log is the skew matrix of the twist form *)
+Lemma trlog_so3_mat_skew K (Rm : M33 R) : log_st Rops Rm <> 0 \/ trlog_so3_branch Rops K Rm <> BrGen ->
+  trlog_so3_mat Rops K Rm = skew3 Rops (trlog_so3_tw Rops K Rm).
+Proof.
+  intros H. unfold trlog_so3_mat, trlog_so3_tw. destruct (trlog_so3_branch Rops K Rm) eqn:Hb.
+  - c03_simpl. tuple_eq ltac:(ring).
+  - reflexivity.
+  - destruct H as [H|H]; [|contradiction]. unfold log_general. revert H.
+    generalize (log_st Rops Rm) (log_theta Rops Rm). intros st th H.
+    destruct Rm as [[[[r00 r01] r02] [[r10 r11] r12]] [[r20 r21] r22]]. c03_simpl. tuple_eq ltac:(field; exact H).
+Qed.
+
+Lemma general_st_pos K (Rm : M33 R) :
+  thr_ok K -> SO3 Rm -> trlog_so3_branch Rops K Rm = BrGen -> 0 < log_theta Rops Rm -> 0 < log_st Rops Rm.
+Proof.
+  intros HK HR Hbr Hth0. pose proof HK as (Kz & Kzu & Kh & Ke & Kiu & Kz1 & Kiu1). pose proof eps_pos as He.
+  destruct Rm as [[[[r00 r01] r02] [[r10 r11] r12]] [[r20 r21] r22]]. unfold M33, V3 in *.
+  destruct (theta_facts _ _ _ _ _ _ _ _ _ HR) as (Hcos & Hsin & Hr0 & HrP). cbv zeta in *.
+  destruct (st_facts _ _ _ _ _ _ _ _ _ HR) as (Hst0 & Hst2 & Hcs). cbv zeta in *.
+  set (Rm := ((r00,r01,r02),(r10,r11,r12),(r20,r21,r22))) in *.
+  set (th := log_theta Rops Rm) in *. set (st := log_st Rops Rm) in *. set (c := (r00 + r11 + r22 - 1)/2) in *.
+  destruct (Req_dec st 0) as [E|E]; [|lra]. exfalso. rewrite E in Hsin.
+  assert (th = PI). { destruct (Req_dec th PI); [assumption|]. assert (0 < sin th) by (apply sin_gt_0; lra). lra. }
+  assert (c = -1) by (rewrite <- Hcos; replace th with PI by auto; apply cos_PI).
+  unfold trlog_so3_branch in Hbr. destruct (iseye33 Rops K _); [discriminate|].
+  match type of Hbr with (if ?b then _ else _) = _ => destruct b eqn:Hb; [discriminate|] end.
+  cbn [ltb Rops] in Hb. apply Rltb_false in Hb. apply Hb. rewrite thv_R. unfold Rm. c03_simpl.
+  replace (r00 + r11 + r22 + 1) with 0 by (unfold c in *; lra). rewrite Rabs_R0. nra.
+Qed.
+
+Lemma mv33_mmul (A B : M33 R) (t : V3 R) : mv33 Rops (mmul33 Rops A B) t = mv33 Rops A (mv33 Rops B t).
+Proof. lin_ring. Qed.
+Lemma mv33_scale_in (A : M33 R) (k : R) (t : V3 R) :
+  mv33 Rops A (let '(t0,t1,t2) := t in (t0/k, t1/k, t2/k)) = mv33 Rops (mscale33 Rops (1/k) A) t.
+Proof. destruct_tuples. c03_simpl. tuple_eq ltac:(unfold Rdiv; ring). Qed.
+Lemma mv33_I (t : V3 R) : mv33 Rops (I33 Rops) t = t.
+Proof. lin_ring. Qed.
+
+Theorem explog_SE3 K (Tm : M44 R) :
+  thr_ok2 K -> SE3 Tm -> trlog_se3_branch Rops K Tm = BrRot ->
+  thv Rops (k_unit K) < log_theta Rops (t2r3 Tm) -> log_theta Rops (t2r3 Tm) < PI ->
+  trexp_se3 Rops K (trlog_se3_tw Rops K Tm) = Ok Tm.
+Proof.
+  intros HK HT Hbr Hthu HthP. pose proof (proj1 HK) as HK1. pose proof HK1 as (Kz & Kzu & Kh & Ke & Kiu & Kz1 & Kiu1).
+  pose proof eps_pos as He.
+  rewrite (SE3_decompose Tm HT) at 2. destruct HT as [HR _].
+  unfold trlog_se3_tw. rewrite Hbr.
+  assert (Hne : trlog_so3_branch Rops K (t2r3 Tm) <> BrEye).
+  { unfold trlog_se3_branch in Hbr. destruct (iseye44 Rops K Tm); [discriminate|].
+    destruct (iseye33 Rops K (t2r3 Tm)) eqn:He3; [discriminate|]. unfold trlog_so3_branch. rewrite He3.
+    destruct (ltb Rops _ _); discriminate. }
+  set (Rm := t2r3 Tm) in *. set (t := transl3 Tm). clearbody Rm t.
+  destruct (explog_SO3 K Rm HK HR Hne Hthu) as (Hexp & Hnorm & Hth0 & _).
+  assert (Hmat : trlog_so3_mat Rops K Rm = skew3 Rops (trlog_so3_tw Rops K Rm)).
+  { apply trlog_so3_mat_skew. destruct (trlog_so3_branch Rops K Rm) eqn:Hb; [contradiction | right; discriminate | left].
+    assert (0 < log_st Rops Rm) by (apply (general_st_pos K); assumption). lra. }
+  rewrite Hmat, vex3_skew3, Hnorm.
+  set (th := log_theta Rops Rm) in *. clearbody th.
+  destruct (trlog_so3_tw Rops K Rm) as [[L0 L1] L2].
+  assert (Hsq : L0*L0 + L1*L1 + L2*L2 = th*th).
+  { c03_simpl. rewrite <- Hnorm. symmetry. apply sqrt_sqrt. nra. }
+  assert (Hun : normsq3 Rops (L0/th, L1/th, L2/th) = 1).
+  { c03_simpl. transitivity ((L0*L0 + L1*L1 + L2*L2)/(th*th)); [field; lra | rewrite Hsq; field; lra]. }
+  (* the rotation block *)
+  assert (HRot : rodrigues_th Rops (L0/th, L1/th, L2/th) th = Rm).
+  { replace (L0, L1, L2) with (L0/th*th, L1/th*th, L2/th*th) in Hexp by (repeat apply f_equal2; field; lra).
+    rewrite (trexp_so3_scaled K _ _ _ th HK1) in Hexp; [| c03_simpl; exact Hun | exact Hthu]. clear - Hexp. injection Hexp. auto. }
+  (* the skew matrix is theta K(u) *)
+  assert (HS : skew3 Rops (L0, L1, L2) = mscale33 Rops th (skew3 Rops (L0/th, L1/th, L2/th))).
+  { c03_simpl. tuple_eq ltac:(field; lra). }
+  rewrite HS.
+  set (G := Ginv Rops (mscale33 Rops th (skew3 Rops (L0/th, L1/th, L2/th))) th).
+  destruct (mv33 Rops G t) as [[v0 v1] v2] eqn:Hv.
+  unfold v6, trexp_se3, iszerovec6.
+  assert (Hn6 : ~ norm6 Rops (v0, v1, v2, L0, L1, L2) < thv Rops (k_zero K)).
+  { rewrite thv_R in *. c03_simpl. intro H.
+    assert (th <= sqrt (v0*v0 + v1*v1 + v2*v2 + L0*L0 + L1*L1 + L2*L2)).
+    { rewrite <- (sqrt_square th) at 1 by lra. apply sqrt_le_1_alt. nra. }
+    assert (0 <= IZR (k_unit K) * / 4503599627370496) by (apply Rmult_le_pos; lra). nra. }
+  cbn [ltb Rops]. apply Rltb_false in Hn6. rewrite Hn6.
+  unfold unittwist_norm, iszerovec3. rewrite Hnorm. cbn [ltb Rops].
+  replace (Rltb th _) with false.
+  2:{ symmetry. apply Rltb_false. rewrite thv_R in *. assert (0 <= IZR (k_unit K) * eps Rops) by (apply Rmult_le_pos; lra). nra. }
+  cbn [div Rops]. f_equal. unfold trexp_unit. rewrite rodrigues3_with_unit by assumption. rewrite HRot.
+  f_equal.
+  pose proof (mv33_scale_in (Vmat Rops (L0/th, L1/th, L2/th) th) th (v0,v1,v2)) as E. cbv beta iota zeta in E. rewrite E.
+  rewrite <- Hv, <- mv33_mmul. unfold G. rewrite V_Ginv_inverse by (try assumption; lra). apply mv33_I.
+Qed.
